@@ -29,8 +29,8 @@ CONSTANTS AllModes      \* TRUE: the flag stratum F is crossed with all five mod
 SvcDom == {<<"4chan", "org">>}
 INSTANCE DnsPipelineCore WITH SvcDomains <- SvcDom
 
-VARIABLES cfg, req, p, tab, bk
-vars == <<cfg, req, p, tab, bk>>
+VARIABLES cfg, req, p, tab, bk, live
+vars == <<cfg, req, p, tab, bk, live>>
 
 \* ------------------------------------------------------------------ names
 ACOM  == <<"a", "com">>
@@ -146,7 +146,7 @@ SumIds(S) == IF S = {} THEN 0
 NoClient  == [known |-> FALSE, useOwn |-> FALSE, filt |-> TRUE, svc |-> "inherit"]
 BaseCfg(rs, mode) ==
     [rules |-> rs, mode |-> mode, prot |-> "on", filt |-> TRUE, svc |-> "none",
-     client |-> NoClient, aaaaOff |-> FALSE]
+     client |-> NoClient, aaaaOff |-> FALSE, cache |-> FALSE]
 
 \* Stratum R: every rule set of size <= 2 (and the ladders), everything else
 \* at its default; c1 is a persistent client (without own settings) in half
@@ -155,7 +155,9 @@ BaseCfg(rs, mode) ==
 \* workers share the work: successors of ONE state are computed by one worker.
 KnownClient == [known |-> TRUE, useOwn |-> FALSE, filt |-> TRUE, svc |-> "inherit"]
 GenModes == IF AllModes THEN {ModeSeq[i] : i \in DOMAIN ModeSeq} ELSE {"rot"}
-MkR(rs, m) == [BaseCfg(rs, m) EXCEPT !.client = IF SumIds(rs) % 2 = 0 THEN KnownClient ELSE NoClient]
+\* The proxy's response cache is on in a third of the configurations.
+MkR(rs, m) == [BaseCfg(rs, m) EXCEPT !.client = IF SumIds(rs) % 2 = 0 THEN KnownClient ELSE NoClient,
+                                     !.cache = (SumIds(rs) % 3 = 1)]
 FlagSum(c) ==
     (CASE c.prot = "on" -> 0 [] c.prot = "off" -> 1 [] c.prot = "paused" -> 2 [] OTHER -> 3)
     + (IF c.filt THEN 0 ELSE 1) + (CASE c.svc = "none" -> 0 [] c.svc = "active" -> 1 [] OTHER -> 2)
@@ -198,22 +200,28 @@ ClientRecs ==
     {[known |-> TRUE, useOwn |-> u, filt |-> f, svc |-> s] :
         u \in BOOLEAN, f \in BOOLEAN, s \in {"inherit", "none", "active", "paused"}}
 StratumFB(fi) ==
-    {[rules |-> rs, mode |-> m, prot |-> pr, filt |-> f, svc |-> s, client |-> c, aaaaOff |-> FALSE] :
+    {[rules |-> rs, mode |-> m, prot |-> pr, filt |-> f, svc |-> s, client |-> c, aaaaOff |-> FALSE,
+      cache |-> FALSE] :
         rs \in {FlagRuleSets[fi]}, m \in GenModes,
         pr \in {"on", "off", "paused", "expired"}, f \in BOOLEAN,
         s \in {"none", "active", "paused"},
         c \in {x \in ClientRecs : x.useOwn \/ x.filt}}   \* filt is irrelevant without useOwn
 
 \* The upstream of C01 answers every question with a harmless sentinel record.
-Harmless == <<[t |-> "TXT", n |-> <<>>, a |-> "", h4 |-> <<>>, h6 |-> <<>>]>>
+Harmless == <<[t |-> "TXT", o |-> <<>>, n |-> <<>>, a |-> "", h4 |-> <<>>, h6 |-> <<>>]>>
 
-Table01(c) == [i \in DOMAIN Queries |-> Verdict(c, Queries[i], Harmless)]
+Table01(c)  == [i \in DOMAIN Queries |-> Verdict(c, Queries[i], Harmless)]
+\* admissible outcomes when the question was asked on this server before
+\* (under this or an earlier configuration); differs from Table01 only with
+\* the cache on, so it is emitted for those configurations only
+Table01R(c) == IF c.cache THEN [i \in DOMAIN Queries |-> VerdictRepeat(c, Queries[i], Harmless)] ELSE <<>>
 
 \* ------------------------------------------------------------ C02 universe
 QCOM == <<"q", "com">>        \* the queried name
 BCOM == <<"b", "com">>        \* CNAME targets
 CCOM == <<"c", "com">>
-RR(t, n, a, h4, h6) == [t |-> t, n |-> n, a |-> a, h4 |-> h4, h6 |-> h6]
+UCOM == <<"u", "com">>        \* a name unrelated to the question
+RR(t, n, a, h4, h6) == [t |-> t, o |-> <<>>, n |-> n, a |-> a, h4 |-> h4, h6 |-> h6]
 RRs == << RR("CNAME", BCOM, "", <<>>, <<>>), RR("CNAME", CCOM, "", <<>>, <<>>),
           RR("A", <<>>, "i1", <<>>, <<>>),   RR("A", <<>>, "i2", <<>>, <<>>),
           RR("AAAA", <<>>, "i6", <<>>, <<>>),
@@ -233,6 +241,22 @@ AnsIxOf(j) ==
 AnsSeq == [k \in 1..NAns |-> AnsIxOf(k - 1)]
 AnsIx  == {AnsSeq[k] : k \in 1..NAns}
 AnsOf(ix) == [k \in DOMAIN ix |-> RRs[ix[k]]]
+\* Owner names.  Pattern 0 "chain": every record is owned by the target of the
+\* last CNAME before it (the usual rendering); 1 "flat": all owned by the
+\* question name; 2 "ahead": owned by the target of the first CNAME AFTER it
+\* (addresses before the CNAME that points at their owner, reversed chains);
+\* 3 "foreign": owned by an unrelated name (except a leading CNAME).
+CnamesBefore(ix, j) == {i \in 1..(j - 1) : RRs[ix[i]].t = "CNAME"}
+CnamesAfter(ix, j)  == {i \in (j + 1)..Len(ix) : RRs[ix[i]].t = "CNAME"}
+MaxOf(S) == CHOOSE x \in S : \A y \in S : y <= x
+MinOf(S) == CHOOSE x \in S : \A y \in S : x <= y
+OwnerOf(ix, pat, j) ==
+    CASE pat = 0 -> IF CnamesBefore(ix, j) = {} THEN <<>> ELSE RRs[ix[MaxOf(CnamesBefore(ix, j))]].n
+      [] pat = 1 -> <<>>
+      [] pat = 2 -> IF CnamesAfter(ix, j) = {} THEN <<>> ELSE RRs[ix[MinOf(CnamesAfter(ix, j))]].n
+      [] OTHER   -> IF j = 1 /\ RRs[ix[1]].t = "CNAME" THEN <<>> ELSE UCOM
+Owners(ix, pat) == [j \in DOMAIN ix |-> OwnerOf(ix, pat, j)]
+AnsOfP(ix, pat) == [j \in DOMAIN ix |-> [RRs[ix[j]] EXCEPT !.o = OwnerOf(ix, pat, j)]]
 QTypes02 == <<"A", "HTTPS", "AAAA">>
 
 IPRule(id, kind, pat, tok, imp, da) ==
@@ -261,21 +285,24 @@ Family02 ==
     }
 Placed02 == {Placed(r, pl) : r \in Family02, pl \in {"allow", "block", "custom"}}
                 \cup {Placed(r, "offblock") : r \in {x \in Family02 : x.id \in {101, 111}}}
-Flag02 ==  \* (prot, filt, client record, aaaaOff)
-    { <<"on", TRUE, NoClient, FALSE>>, <<"on", TRUE, NoClient, TRUE>>, <<"off", TRUE, NoClient, FALSE>>,
-      <<"paused", TRUE, NoClient, TRUE>>, <<"on", FALSE, NoClient, FALSE>>,
-      <<"on", TRUE, [known |-> TRUE, useOwn |-> TRUE, filt |-> FALSE, svc |-> "inherit"], FALSE>>,
-      <<"on", FALSE, [known |-> TRUE, useOwn |-> TRUE, filt |-> TRUE, svc |-> "inherit"], FALSE>>,
-      <<"expired", TRUE, KnownClient, FALSE>> }
+Flag02 ==  \* (prot, filt, client record, aaaaOff, cache)
+    { <<"on", TRUE, NoClient, FALSE, FALSE>>, <<"on", TRUE, NoClient, TRUE, FALSE>>, <<"off", TRUE, NoClient, FALSE, FALSE>>,
+      <<"paused", TRUE, NoClient, TRUE, FALSE>>, <<"on", FALSE, NoClient, FALSE, FALSE>>,
+      <<"on", TRUE, [known |-> TRUE, useOwn |-> TRUE, filt |-> FALSE, svc |-> "inherit"], FALSE, FALSE>>,
+      <<"on", FALSE, [known |-> TRUE, useOwn |-> TRUE, filt |-> TRUE, svc |-> "inherit"], FALSE, FALSE>>,
+      <<"expired", TRUE, KnownClient, FALSE, FALSE>>,
+      <<"on", TRUE, NoClient, FALSE, TRUE>>, <<"on", TRUE, NoClient, TRUE, TRUE>>,
+      <<"off", TRUE, NoClient, FALSE, TRUE>> }
 FlagRuleSets02 ==
     << {Placed(CHOOSE r \in Family02 : r.id = 101, "block")},
        {Placed(CHOOSE r \in Family02 : r.id = 111, "custom")},
        {Placed(CHOOSE r \in Family02 : r.id = 114, "block"), Placed(CHOOSE r \in Family02 : r.id = 113, "custom")},
        {Placed(CHOOSE r \in Family02 : r.id = 108, "custom"), Placed(CHOOSE r \in Family02 : r.id = 101, "block")} >>
 MkCfg02(rs, m, fl) ==
-    [rules |-> rs, mode |-> m, prot |-> fl[1], filt |-> fl[2], svc |-> "none", client |-> fl[3], aaaaOff |-> fl[4]]
+    [rules |-> rs, mode |-> m, prot |-> fl[1], filt |-> fl[2], svc |-> "none", client |-> fl[3],
+     aaaaOff |-> fl[4], cache |-> fl[5]]
 MkR02(rs, m) ==
-    MkCfg02(rs, m, IF SumIds(rs) % 3 = 0 THEN <<"on", TRUE, NoClient, TRUE>> ELSE <<"on", TRUE, NoClient, FALSE>>)
+    MkCfg02(rs, m, <<"on", TRUE, NoClient, SumIds(rs) % 3 = 0, SumIds(rs) % 4 = 1>>)
 Buckets02 == {<<"R", RKey(r)>> : r \in Placed02} \cup {<<"L", 0>>} \cup {<<"F", i>> : i \in 1..4}
 Stratum02B(b) ==
     CASE b[1] = "R" -> {MkR02(rs, "rot") : rs \in RuleSetsOf(Placed02, b[2])}
@@ -284,44 +311,64 @@ Stratum02B(b) ==
 
 \* The client is c1 throughout; AAAA is asked only while AAAA resolving is on
 \* (with it off the server answers AAAA queries itself, which is outside C02).
-Req02(c, qt) == [name |-> QCOM, qtype |-> qt, client |-> "c1"]
+\* With the cache on every entry asks its own name under q.com (a cache
+\* answers by question, and the entries differ in the upstream's answer).
+QName02(c, k) == IF c.cache THEN <<"n" \o ToString(k)>> \o QCOM ELSE QCOM
+Req02N(n, qt) == [name |-> n, qtype |-> qt, client |-> "c1"]
+Req02(c, qt)  == Req02N(QCOM, qt)
 QTypesFor(c) == IF c.aaaaOff THEN <<"A", "HTTPS">> ELSE QTypes02
-\* The table of a configuration: one entry per answer section, the query type
-\* rotating with the entry.  Thorough (AllModes): every answer section of
+\* The table of a configuration: one entry per answer section; the query type
+\* and the owner pattern rotate with the entry (k mod 3 and k mod 4: all
+\* twelve combinations occur).  Thorough (AllModes): every answer section of
 \* length <= 3; quick: every section of length <= 2 and one eighth of the
 \* sections of length 3 (a different eighth per rule set).
 AnsKeys(c) ==
     IF AllModes THEN 1..NAns
     ELSE {k \in 1..NAns : k <= 1 + NRR + NRR * NRR \/ k % 8 = SumIds(c.rules) % 8}
-QTypeAt(c, k) == QTypesFor(c)[((k + SumIds(c.rules)) % Len(QTypesFor(c))) + 1]
-Table02(c) == {[k |-> k, qt |-> QTypeAt(c, k),
-                out |-> Verdict(c, Req02(c, QTypeAt(c, k)), AnsOf(AnsSeq[k]))] : k \in AnsKeys(c)}
+QTypeAt(c, k) == QTypesFor(c)[(k % Len(QTypesFor(c))) + 1]
+PatAt(k) == k % 4
+Entry02(c, k) ==
+    LET rq == Req02N(QName02(c, k), QTypeAt(c, k))
+        ua == AnsOfP(AnsSeq[k], PatAt(k))
+    IN [k |-> k, qt |-> rq.qtype, name |-> rq.name, own |-> Owners(AnsSeq[k], PatAt(k)),
+        out |-> Verdict(c, rq, ua),
+        outr |-> IF c.cache THEN VerdictRepeat(c, rq, ua) ELSE {}]
+Table02(c) == {Entry02(c, k) : k \in AnsKeys(c)}
 
 \* ----------------------------------------------------------------- actions
 NoCfg == BaseCfg({}, "default")
 NoReq == [name |-> <<>>, qtype |-> "A", client |-> "c2"]
 Idle  == [P0 EXCEPT !.stage = "idle"]
 
-Init == cfg = NoCfg /\ req = NoReq /\ p = Idle /\ tab = <<>> /\ bk = <<"", 0>>
+\* The live server: the rule sets installed in its engines, the questions it
+\* has been asked since it was started, and history bounds.
+Live0 == [inst |-> {}, asked |-> {}, nre |-> 0, n |-> 0]
+Init == cfg = NoCfg /\ req = NoReq /\ p = Idle /\ tab = <<>> /\ bk = <<"", 0>> /\ live = Live0
 
 \* --- SpecMC: the pipeline step by step over a reduced universe
-MCConfigs ==
+\* (the universes below take a dummy argument so that TLC does not evaluate
+\* them at start-up of the runs that do not use them)
+MCConfigs(z) ==
     {FixMode(MkR(rs, "rot")) : rs \in {{}} \cup {{r} : r \in {x \in AllPlaced : x.place # "block"}} \cup Ladders}
       \cup {FixMode(c) : c \in {x \in UNION {StratumFB(i) : i \in {4, 7}} :
                /\ x.mode \in {"rot", "default"} /\ x.prot \in {"on", "off", "expired"}
                /\ (x.client.known => x.client.svc \in {"inherit", "active"})}}
-MCConfigs02 == {FixMode(MkR02(rs, "rot")) : rs \in {{}} \cup {{r} : r \in Placed02}}
-MCAnswers02 == {AnsOf(ix) : ix \in {x \in AnsIx : Len(x) <= 2}}
+MCConfigs02(z) == {FixMode(MkR02(rs, "rot")) : rs \in {{}} \cup {{r} : r \in Placed02}}
+MCAnswers02(z) == {AnsOfP(ix, pat) : ix \in {x \in AnsIx : Len(x) <= 2}, pat \in {0, 2}}
 
 Pick01 == /\ p.stage = "idle"
-          /\ \E c \in MCConfigs, i \in DOMAIN Queries :
-                cfg' = c /\ req' = Queries[i] /\ p' = P0 /\ tab' = <<Harmless>> /\ UNCHANGED bk
+          /\ \E c \in MCConfigs(0), i \in DOMAIN Queries :
+                /\ cfg' = c /\ req' = Queries[i] /\ p' = P0 /\ tab' = <<Harmless>> /\ UNCHANGED bk
+                /\ live' = [Live0 EXCEPT !.inst = c.rules]
 Pick02 == /\ p.stage = "idle"
-          /\ \E c \in MCConfigs02, ua \in MCAnswers02, q \in {"A", "HTTPS"} :
-                cfg' = c /\ req' = Req02(c, q) /\ p' = P0 /\ tab' = <<ua>> /\ UNCHANGED bk
+          /\ \E c \in MCConfigs02(0), ua \in MCAnswers02(0), q \in {"A", "HTTPS"} :
+                /\ cfg' = c /\ req' = Req02(c, q) /\ p' = P0 /\ tab' = <<ua>> /\ UNCHANGED bk
+                /\ live' = [Live0 EXCEPT !.inst = c.rules]
 \* One action per stage of handleDNSRequest; the bodies are Core!Step.
-Advance == /\ \E q \in Step(cfg, req, p, {tab[1]}) : p' = q
-           /\ UNCHANGED <<cfg, req, tab, bk>>
+\* The engines answer from what is INSTALLED in them.
+EffCfg == [cfg EXCEPT !.rules = live.inst]
+Advance == /\ \E q \in Step(EffCfg, req, p, {tab[1]}) : p' = q
+           /\ UNCHANGED <<cfg, req, tab, bk, live>>
 Before       == p.stage = "before" /\ Advance
 Initial      == p.stage = "initial" /\ Advance
 FilterBefore == p.stage = "filterbefore" /\ Advance
@@ -331,35 +378,74 @@ Log          == p.stage = "log" /\ Advance
 NextMC == Pick01 \/ Pick02 \/ Before \/ Initial \/ FilterBefore \/ Upstream \/ FilterAfter \/ Log
 SpecMC == Init /\ [][NextMC]_vars
 
+\* --- SpecHist: ONE live server through reconfigurations and repeated
+\* questions.  Boot installs a configuration; Ask sends a question (Repeat: one
+\* that this server has been asked before -- with the cache on it may be
+\* served from the cache); Reconfigure replaces the rule lists by those of ANY
+\* other configuration (rules added, removed, lists switched off, down to the
+\* empty allow set and back) and installs exactly them; Finish returns to
+\* the ready state.  Bounds: 2 reconfigurations, 2 questions.
+HRules == {ById(2, "allow"), ById(1, "block"), Placed(CHOOSE r \in Family02 : r.id = 101, "custom")}
+HConfigs(z) == {[BaseCfg(rs, "default") EXCEPT !.cache = ch] : rs \in SUBSET HRules, ch \in BOOLEAN}
+HAsks(z) == {[req |-> Queries[2], ans |-> Harmless], [req |-> Queries[11], ans |-> Harmless],
+          [req |-> Queries[26], ans |-> Harmless],
+          [req |-> Req02N(QCOM, "A"), ans |-> AnsOfP(<<3, 1>>, 2)],       \* A i1 owned by b.com, then CNAME b.com
+          [req |-> Req02N(QCOM, "HTTPS"), ans |-> AnsOfP(<<4>>, 0)]}
+Question(r) == <<r.name, r.qtype>>
+Ready == [P0 EXCEPT !.stage = "ready"]
+Boot == /\ p.stage = "idle"
+        /\ \E c \in HConfigs(0) : cfg' = c /\ live' = [Live0 EXCEPT !.inst = c.rules]
+        /\ p' = Ready /\ UNCHANGED <<req, tab, bk>>
+AskWith(first) ==
+    /\ p.stage = "ready" /\ live.n < 2
+    /\ \E a \in HAsks(0) :
+         /\ (Question(a.req) \notin live.asked) = first
+         /\ req' = a.req /\ tab' = <<a.ans>>
+         /\ p' \in (IF ~first /\ cfg.cache THEN {P0, P0Hit} ELSE {P0})
+         /\ live' = [live EXCEPT !.n = @ + 1, !.asked = @ \cup {Question(a.req)}]
+    /\ UNCHANGED <<cfg, bk>>
+Ask    == p.stage = "ready" /\ AskWith(TRUE)
+Repeat == p.stage = "ready" /\ AskWith(FALSE)
+Finish == /\ p.stage = "done" /\ p' = Ready /\ UNCHANGED <<cfg, req, tab, bk, live>>
+Reconfigure ==
+    /\ p.stage = "ready" /\ live.nre < 2
+    /\ \E c \in HConfigs(0) :
+         /\ c.cache = cfg.cache /\ c # cfg
+         /\ cfg' = c
+         /\ live' = [live EXCEPT !.inst = c.rules, !.nre = @ + 1]   \* BOTH engines rebuilt from c
+    /\ UNCHANGED <<req, p, tab, bk>>
+NextHist == Boot \/ Ask \/ Repeat \/ Reconfigure \/ Finish
+              \/ Before \/ Initial \/ FilterBefore \/ Upstream \/ FilterAfter \/ Log
+SpecHist == Init /\ [][NextHist]_vars
+
 \* --- SpecGen01 / SpecGen02: one verdict table per configuration
-Emit(kind, c, t) == PrintT(<<"@@V", ToJson([kind |-> kind, cfg |-> c, tab |-> t])>>)
 Header01 == /\ p.stage = "idle"
-            /\ p' = [p EXCEPT !.stage = "hdr"] /\ UNCHANGED <<cfg, req, tab, bk>>
+            /\ p' = [p EXCEPT !.stage = "hdr"] /\ UNCHANGED <<cfg, req, tab, bk, live>>
             /\ PrintT(<<"@@V", ToJson([kind |-> "hdr01", queries |-> Queries])>>)
 Bucket01 == /\ p.stage = "idle"
             /\ \E b \in Buckets01 : bk' = b
-            /\ p' = [p EXCEPT !.stage = "bucket"] /\ UNCHANGED <<cfg, req, tab>>
+            /\ p' = [p EXCEPT !.stage = "bucket"] /\ UNCHANGED <<cfg, req, tab, live>>
 Gen01 == /\ p.stage = "bucket"
          /\ \E c0 \in (IF bk[1] = "F" THEN StratumFB(bk[2]) ELSE StratumRB(bk)) :
               LET c == FixMode(c0) IN
               /\ cfg' = c /\ tab' = Table01(c) /\ p' = [p EXCEPT !.stage = "table01"]
-              /\ UNCHANGED <<req, bk>>
-              /\ Emit("c01", c, tab')
+              /\ UNCHANGED <<req, bk, live>>
+              /\ PrintT(<<"@@V", ToJson([kind |-> "c01", cfg |-> c, tab |-> tab', tabr |-> Table01R(c)])>>)
 NextGen01 == Header01 \/ Bucket01 \/ Gen01
 SpecGen01 == Init /\ [][NextGen01]_vars
 
 Header02 == /\ p.stage = "idle"
-            /\ p' = [p EXCEPT !.stage = "hdr"] /\ UNCHANGED <<cfg, req, tab, bk>>
+            /\ p' = [p EXCEPT !.stage = "hdr"] /\ UNCHANGED <<cfg, req, tab, bk, live>>
             /\ PrintT(<<"@@V", ToJson([kind |-> "hdr02", rrs |-> RRs, answers |-> AnsSeq,
                                        qname |-> QCOM])>>)
 Bucket02 == /\ p.stage = "idle"
             /\ \E b \in Buckets02 : bk' = b
-            /\ p' = [p EXCEPT !.stage = "bucket"] /\ UNCHANGED <<cfg, req, tab>>
+            /\ p' = [p EXCEPT !.stage = "bucket"] /\ UNCHANGED <<cfg, req, tab, live>>
 Gen02 == /\ p.stage = "bucket"
          /\ \E c0 \in Stratum02B(bk) :
               LET c == FixMode(c0) IN
               /\ cfg' = c /\ tab' = Table02(c) /\ p' = [p EXCEPT !.stage = "table02"]
-              /\ UNCHANGED <<req, bk>>
+              /\ UNCHANGED <<req, bk, live>>
               /\ PrintT(<<"@@V", ToJson([kind |-> "c02", cfg |-> c, tab |-> tab'])>>)
 NextGen02 == Header02 \/ Bucket02 \/ Gen02
 SpecGen02 == Init /\ [][NextGen02]_vars
@@ -377,9 +463,22 @@ UpstreamOnlyWithoutResponse == [][Len(p'.upLog) > Len(p.upLog) => ~p.set]_vars
 \* a blocked query never reaches the upstream, at any stage
 NeverForwardedWhileBlocked == (p.why \in {"B", "S"}) => p.upLog = <<>>
 
+\* histories (SpecHist): what is installed is the current configuration, and
+\* the verdict of every question -- first or repeated, before or after any
+\* reconfiguration -- is the verdict of the CURRENT configuration alone
+HistInstalled == (p.stage # "idle") => live.inst = cfg.rules
+HistVerdict == Done => Outcome(p) \in (IF p.hit THEN VerdictHit(cfg, req, tab[1]) ELSE Verdict(cfg, req, tab[1]))
+HistStatements ==
+    Done => IF Is01 THEN C01All(cfg, req, {AsFetched(Outcome(p), p.hit)})
+            ELSE C02All(cfg, req, tab[1], {AsFetched(Outcome(p), p.hit)})
+HistRepeat == Done => RepeatEqualsFirst(cfg, req, tab[1])
+
 \* table form (SpecGen01/02): the statements on every entry of the table
 Gen_C01 == (p.stage = "table01") =>
               \A i \in DOMAIN Queries : C01All(cfg, Queries[i], tab[i])
 Gen_C02 == (p.stage = "table02") =>
-              \A e \in tab : C02All(cfg, Req02(cfg, e.qt), AnsOf(AnsSeq[e.k]), e.out)
+              \A e \in tab :
+                 /\ C02All(cfg, Req02N(e.name, e.qt), AnsOfP(AnsSeq[e.k], PatAt(e.k)), e.out)
+                 \* the second answer equals the first
+                 /\ (cfg.cache => {Answer(o) : o \in e.outr} = {Answer(o) : o \in e.out})
 =============================================================================
